@@ -12,6 +12,7 @@ package main
 
 import (
 	"fmt"
+	"runtime"
 	"sort"
 	"strings"
 	"sync"
@@ -421,6 +422,7 @@ func main() {
 	run := vk.Start("C19", "exploration")
 	run.Rule("forced schedules: every placement of 1..3 producers in {before the consumer's check, inside the check/wait window (consumer parked at hook), after the consumer waits} " +
 		"x second consumer start x close/reset placement, each executed on the real queue; distinct = schedule id. " +
+		"lonely packet: ping-pong on the real sender loop, a packet added (after a random sub-microsecond spin) while the sender finishes the previous Send, nothing added afterwards; " +
 		"end-to-end: packets emitted at random phases of a real long-polling cycle with the window widened by a sleep hook; distinct = phase bucket")
 	run.Assume("the hook sits between the emptiness check and the wait in the real files (build tag verif)",
 		"a consumer that has not returned 250 ms after logical quiescence with a non-empty queue is stranded (its own timeout is 1 h)")
@@ -467,6 +469,7 @@ func main() {
 	run.Exhaustive(true)
 
 	stress(run)
+	lonely(run)
 	endToEnd(run)
 
 	if bin := raceBin(); bin != "" && run.Thorough() {
@@ -545,6 +548,70 @@ func stress(run *vk.Run) {
 			run.Violation(vk.Violation{Sub: "close-not-observed", Fields: map[string]any{"queue": "packetQueue", "mode": "stress"},
 				What: "stress: sender goroutine did not exit after close", Witness: map[string]any{"round": round}})
 		}
+	}
+}
+
+// lonely: a packet added while the sender goroutine is just finishing a Send, with nothing coming after it.
+// Ping-pong on the real packetQueue + pollAndSend: add A; while the sender is inside Send(A) (random spin of
+// 0..0.5 us) add B after a random spin; then nothing else is added. B must be sent promptly: 200 ms of
+// idleness with B queued means it was left to be flushed by some later packet.
+func lonely(run *vk.Run) {
+	q := sio.VerifNewPacketQueue()
+	var inSend atomic.Int32
+	var sentN atomic.Int64
+	var dummy atomic.Int64
+	spin := func(k int) {
+		for i := 0; i < k; i++ {
+			dummy.Add(1)
+		}
+	}
+	r := run.Rand("c19-lonely")
+	spins := make([]int, 4096)
+	for i := range spins {
+		spins[i] = r.Intn(120)
+	}
+	var it atomic.Int64
+	done := make(chan struct{})
+	go func() {
+		defer close(done)
+		q.VerifPollAndSend(func(ps ...*eioparser.Packet) {
+			inSend.Store(1)
+			spin(spins[(it.Load()*7+3)%4096])
+			sentN.Add(int64(len(ps)))
+			inSend.Store(0)
+		})
+	}()
+	n := run.Pick(60000, 600000)
+	stranded := 0
+	for i := 0; i < n && stranded < 3; i++ {
+		it.Store(int64(i))
+		base := sentN.Load()
+		q.Add(pkt("A"))
+		for inSend.Load() == 0 && sentN.Load() == base {
+		}
+		spin(spins[(i*13+1)%4096] * 2)
+		q.Add(pkt("B"))
+		deadline := time.Now().Add(200 * time.Millisecond)
+		for sentN.Load() < base+2 && time.Now().Before(deadline) {
+			if sentN.Load() == base+1 {
+				runtime.Gosched()
+			}
+		}
+		run.Eval(1)
+		if sentN.Load() < base+2 {
+			stranded++
+			run.Violation(vk.Violation{Sub: "lost-wakeup", Fields: map[string]any{"queue": "packetQueue", "mode": "lonely-packet"},
+				What:    fmt.Sprintf("iteration %d: a packet added while the sender goroutine was finishing the previous Send was still queued 200 ms later with the sender idle (%d of 2 sent): it waits for some later packet to flush it", i, sentN.Load()-base),
+				Witness: map[string]any{"iteration": i, "seed": run.Seed()}})
+			q.Add(pkt("flush"))
+			vk.WaitUntil(2*time.Second, func() bool { return sentN.Load() >= base+3 })
+		}
+	}
+	run.Count("lonely_packet_iterations", int64(n))
+	q.Close()
+	select {
+	case <-done:
+	case <-time.After(5 * time.Second):
 	}
 }
 
